@@ -24,6 +24,12 @@
 
   The functions with node events that the reader could not follow are listed in
   `Gen.cUncovered` (at present: the `_test_*` helpers only); no theorem speaks about them.
+  The reader REFUSES a function (it becomes not followed, `uncovered_only_tests` fails) rather
+  than guess: a node or a handle passed to a local name (an alias), to a computed callee or
+  (raw node) to something neither declared nor defined in the module; `incref`/`decref` on a
+  value it cannot identify; an update or a test of `_ref` of another shape than `h._ref += k`,
+  `h._ref = k`, `h._ref <rel> k`.  `allFunctionsSeen` ties the number of definition keywords of
+  each file to the functions the reader found.
 -/
 import DD.Doc
 import DD.CWrap
@@ -316,7 +322,16 @@ def localsOf (b : Backend) : List String :=
 * `Function.__dealloc__` gives back exactly one reference on every path that does not
   raise, except the path guarded by `self._ref == 0` (CUDD wrappers: the user already gave
   it back through `decref`);
-* `incref` / `decref` / `_incref` / `_decref` move exactly one reference;
+* `incref` / `decref` / `_incref` / `_decref` move exactly one reference; a call of one of them
+  from an ordinary method on a handle it made (`self.incref(f)`) counts as a reference taken /
+  given back on the handle's node;
+* in the CUDD wrappers, whose handles carry the counter `_ref` (`refField_backends`): on every
+  path of `Function.init`, `Function.__dealloc__`, `incref`, `decref` the change of `_ref`
+  equals the references taken minus those given back (`fieldPathOk`; INVARIANT `_ref` = library
+  references the handle owns; exception written into the definition: `decref(u, _direct=True)`),
+  `_ref` is decremented only where the path conditions make it positive, `__dealloc__` gives
+  nothing back only where they make it 0, `init` leaves it at exactly the one reference taken;
+  no other function assigns to `_ref`;
 * references parked in a container (`vector` of `_c_compose`, the memo `table` of
   `_compose_root` / `_compose`, `x` of `_multi_compose`, CUDD's hash table in
   `cuddHashTableQuitZdd`): a reference moves into the container when a node the function holds
